@@ -644,10 +644,10 @@ mutant("c16-rule-missing-then-accepted", "C16", (R, """        if state == s_if:
 """, ""), "Rule.parse") if False else None
 mutant("c16-rule-empty-consequent-accepted", "C16", (R, """        if not consequent:
             raise SyntaxError(f"expected a consequent in rule '{text}'")
-""", ""), "F-end/Rule.parse")
+""", ""), "F1/Rule.parse")
 mutant("c16-rule-weight-missing-accepted", "C16", (R, """        if state == s_with:
             raise SyntaxError(f"expected the rule weight in rule '{text}'")
-""", ""), "F-end/Rule.parse")
+""", ""), "F1/Rule.parse")
 mutant("c16-consequent-and-after-hedge", "C16", (R, """            if state & s_and and Rule.AND == token:
                 state = s_variable
                 continue""", """            if Rule.AND == token:
@@ -712,7 +712,7 @@ mutant("c06-hedges-prepended", "C06", (R, """                    hedge = factory
                     proposition.hedges.append(hedge)  # type: ignore
                     state = s_variable | s_and_or if""", """                    hedge = factory.construct(token)
                     proposition.hedges.insert(0, hedge)  # type: ignore
-                    state = s_variable | s_and_or if"""), "H1/Antecedent.load")
+                    state = s_variable | s_and_or if"""), "LD/Antecedent.load/effects")
 mutant("c06-format-keeps-and-or", "C06", (T, "        operators -= {Rule.AND, Rule.OR}\n", "        operators -= {Rule.AND}\n"), "X1/Function.format_infix/alphabet")
 mutant("c06-format-no-reverse", ["C06"], (T, "sorted(operators, reverse=True)", "sorted(operators)"), "X1/Function.format_infix/longest-first")
 mutant("c06-any-applies-term", "C06", (R, """                if isinstance(node.hedges[-1], Any):
@@ -997,7 +997,8 @@ mutant("c13-init-skips-update-reference", "C13", (E, """            for variable
                 for term in variable.terms:
                     term.update_reference(self)
 """, ""), "H7/Engine.__init__/update-references")
-mutant("c13-reload-without-unload", "C13", (R, "        self.unload_rules()\n        self.load_rules(engine)", "        self.load_rules(engine)"), "H2/RuleBlock.reload_rules")
+# load_rules unloads every rule before loading it: dropping the block-wide unload changes nothing (RB-sem, by interpretation, is silent; the shape rule H2 used to report it)
+equivalent("c13-eq-reload-without-unload", "C13", (R, "        self.unload_rules()\n        self.load_rules(engine)", "        self.load_rules(engine)"))
 mutant("c13-first-no-deactivate", ["C13", "C08"], (A, """        for rule in iter(rule_block.rules):
             rule.deactivate()
 """, """        for rule in iter(rule_block.rules):
